@@ -35,6 +35,13 @@ RULE = ("wildcmp: every (pattern, string) pair with patterns over {a,b,*,?} "
         "selections equal to a type of the topology (incl. wildcard "
         "types), prefixes, ordinary globs, by type and name:, for Generate "
         "and GenerateInSphericalSubvolume (open and orthorhombic box). "
+        "Rename family: Topology::RenameMolecules(range, name) and the "
+        "xml topology <rename range=..> (generated file, real reader) with "
+        "1..3-block expressions over 1-based molecule ids, blanks before / "
+        "after ':' and ',', leading / trailing blanks, negative strides; "
+        "judged: set of renamed molecules = independent expansion, no "
+        "rejection of what RangeParser accepts (ids beyond the molecule "
+        "count must throw: counted). "
         "Non-trivial: pattern with a wildcard; accepted range "
         "expression; index set with >= 3 members; selection matching some "
         "but not all beads. distinct = hash of the input text.")
